@@ -954,9 +954,9 @@ struct Circ {
     outs: Vec<ExtensionTarget<D>>,
 }
 
-fn build_circ(m: &Model) -> Result<Circ, String> {
+fn build_circ(m: &Model, config: CircuitConfig) -> Result<Circ, String> {
     guarded(|| {
-        let mut builder = CircuitBuilder::<F, D>::new(CircuitConfig::standard_recursion_config());
+        let mut builder = CircuitBuilder::<F, D>::new(config);
         let wires_t = builder.add_virtual_extension_targets(m.gate.0.num_wires());
         let consts_t = builder.add_virtual_extension_targets(m.gate.0.num_constants());
         let pih_t = builder.add_virtual_hash();
@@ -998,6 +998,10 @@ type Fail = (String, String);
 
 struct Env {
     circ: Result<Circ, String>,
+    /// the same evaluator built by a NARROW builder (37 routed wires, the repository's own
+    /// size-optimised recursion shape): gates take other in-circuit code paths there
+    /// (e.g. PoseidonGate without PoseidonMdsGate)
+    circ_narrow: Result<Circ, String>,
     /// false when `eval_unfiltered_base_one` is the documented stub of packed-only gates
     base_one: bool,
     thorough: bool,
@@ -1065,9 +1069,14 @@ fn compare_in_batches(m: &Model, rows: &[Vec<u64>], crows: &[Vec<u64>], ext: &[V
 }
 
 fn compare_circuit(m: &Model, env: &Env, wires: &[FE], consts: &[FE], pih: &HashOut<F>, ext: &[E], what: &str) -> Result<(), Fail> {
-    let c = match &env.circ {
+    compare_circuit_with(m, &env.circ, "", wires, consts, pih, ext, what)?;
+    compare_circuit_with(m, &env.circ_narrow, "-narrow-builder", wires, consts, pih, ext, what)
+}
+
+fn compare_circuit_with(m: &Model, circ: &Result<Circ, String>, tag: &str, wires: &[FE], consts: &[FE], pih: &HashOut<F>, ext: &[E], what: &str) -> Result<(), Fail> {
+    let c = match circ {
         Ok(c) => c,
-        Err(e) => return fail(format!("panic:{}:eval_unfiltered_circuit", m.kind), format!("building the evaluation circuit panicked: {e}")),
+        Err(e) => return fail(format!("panic:{}:eval_unfiltered_circuit{tag}", m.kind), format!("building the evaluation circuit panicked: {e}")),
     };
     if c.outs.len() != ext.len() {
         return fail(format!("num-constraints:{}:circuit", m.kind), format!("eval_unfiltered_circuit yields {} constraints, eval_unfiltered {}", c.outs.len(), ext.len()));
@@ -1078,7 +1087,7 @@ fn compare_circuit(m: &Model, env: &Env, wires: &[FE], consts: &[FE], pih: &Hash
     };
     for j in 0..ext.len() {
         if got[j] != ext[j] {
-            return fail(format!("evaluator-mismatch:{}:circuit", m.kind), format!("constraint {j} on {what}: eval_unfiltered = {:?}, eval_unfiltered_circuit = {:?}", ext[j], got[j]));
+            return fail(format!("evaluator-mismatch:{}:circuit{tag}", m.kind), format!("constraint {j} on {what}: eval_unfiltered = {:?}, eval_unfiltered_circuit = {:?}", ext[j], got[j]));
         }
     }
     Ok(())
@@ -1628,7 +1637,8 @@ pub fn run(ctx: &Ctx) -> i32 {
     // evaluation circuits and the base_one capability, built once per gate
     let envs: Vec<Env> = par_map(models.len(), |i| {
         let m = &models[i];
-        let circ = build_circ(m);
+        let circ = build_circ(m, CircuitConfig::standard_recursion_config());
+        let circ_narrow = build_circ(m, CircuitConfig { num_routed_wires: 37, ..CircuitConfig::standard_recursion_config() });
         let nw = m.gate.0.num_wires();
         let nc = m.gate.0.num_constants();
         let probe = eval_base_one(m, &vec![1u64; nw], &vec![1u64; nc], &pih_of([0; 4]));
@@ -1636,7 +1646,7 @@ pub fn run(ctx: &Ctx) -> i32 {
             Err(e) if e.contains("use eval_unfiltered_base_packed instead") => false,
             _ => true,
         };
-        Env { circ, base_one, thorough }
+        Env { circ, circ_narrow, base_one, thorough }
     });
     let preps: Vec<Prepared> = par_map(models.len(), |i| prepare(&models[i], thorough));
     let mut summary = Vec::new();
